@@ -34,6 +34,7 @@ type HarnessCfg struct {
 	WitnessSamples int                       `json:"witness_samples"`
 	Witness        []string                  `json:"witness"` // tags of deliberately falsifiable assertions (translator validation)
 	Doc            string                    `json:"doc"`
+	Noop           []string                  `json:"noop"` // functions with empty bodies, for this harness only
 	Params         map[string]int            `json:"-"`
 }
 
@@ -186,8 +187,10 @@ func (e *Engine) initPkg(path string) bool {
 	return e.initPkgs[path]
 }
 
-func (e *Engine) isNoop(name string) bool {
-	for _, n := range e.noop {
+func (e *Engine) isNoop(name string) bool { return matchNoop(e.noop, name) }
+
+func matchNoop(list []string, name string) bool {
+	for _, n := range list {
 		if n == name {
 			return true
 		}
